@@ -98,6 +98,10 @@ pub mod unsync {
             Self { value: UnsafeCell::new(Some(v)) }
         }
         pub fn get(&self) -> Option<&T> {
+            // the accesses of this flavour are tracked by loom's `UnsafeCell` (its happens-before check),
+            // not by scheduling points: tell the instrumentation probe that the kernel *is* running on
+            // the model, so that the oracles judge it instead of the probe calling it un-instrumented
+            crate::support::TRACKED_ACCESSES.fetch_add(1, std::sync::atomic::Ordering::Relaxed);
             self.value.with(|p| unsafe { (*p).as_ref() })
         }
         pub fn get_mut(&mut self) -> Option<&mut T> {
